@@ -490,8 +490,11 @@ func (p *parser) parseConstValue(node *node32) (cv *ConstValue, err error) {
 	case ruleDoubleConstant:
 		// the text of the whole literal: pegText would return the innermost capture, i.e. the exponent
 		text := p.pegText(node)
-		if n := node.up; n != nil && n.pegRule == rulePegText {
-			text = string(p.buffer[n.begin:n.end])
+		for n := node.up; n != nil; n = n.next { // Skip <...> Indent*: the capture may follow a Skip node
+			if n.pegRule == rulePegText {
+				text = string(p.buffer[n.begin:n.end])
+				break
+			}
 		}
 		double, _ := strconv.ParseFloat(text, 64)
 		return &ConstValue{Type: ConstType_ConstDouble, TypedValue: &ConstTypedValue{Double: &double}}, nil
